@@ -245,6 +245,20 @@ UNDECIDED = [
 
 # behaviour-preserving edits: the checks named must stay silent
 BENIGN = [
+    ("b_rollup_named_reversed_list", ["C10", "C07"], [(PJ, "        for task in reversed(list(self.tasks)):\n            if task.leaf():\n                continue  # Skip leaf tasks", "        bottom_up = list(self.tasks)\n        bottom_up.reverse()\n        for task in bottom_up:\n            if task.leaf():\n                continue  # Skip leaf tasks")]),
+    ("b_floor_division_instead_of_math_floor", ["C13", "C17"], [(SB, "        idx = math.floor(diff / self.resolution)", "        idx = int(diff // self.resolution)")]),
+    ("b_priority_range_guard_inclusive", ["C09"], [(TP, "                elif key == \"priority\":\n                    # Set for all scenarios\n", "                elif key == \"priority\":\n                    if not 1 <= value <= 1000:\n                        continue\n                    # Set for all scenarios\n")]),
+    ("b_stop_tolerance_smaller", ["C03", "C06"], [(TS, "            if self.doneEffort >= effort - 1e-9:", "            if self.doneEffort >= effort - 1e-12:")]),
+    ("b_gap_slots_plain_round", ["C04"], [(TS, "gap_slots = int(round(gap_hours * 3600 / granularity))", "gap_slots = round(gap_hours * 3600 / granularity)")]),
+    ("b_marker_test_on_local", ["C01", "C02"], [(RS, "        if isinstance(self.scoreboard[sb_idx], int):\n            return False\n", "        entry = self.scoreboard[sb_idx]\n        if isinstance(entry, int):\n            return False\n")]),
+    ("b_first_booking_guard_reordered", ["C06"], [(TS, "            if first_booked_slot is None and self.doneEffort > previous_effort:", "            if self.doneEffort > previous_effort and first_booked_slot is None:")]),
+    ("b_comment_stripper_via_local", ["C15", "C11"], [(MP, "        content = strip_comments(content)\n", "        without_comments = strip_comments(content)\n        content = without_comments\n")]),
+    ("b_offset_cleared_before_step", ["C07", "C08"], [(TS, "            self.currentSlotIdx += delta\n            # The mid-slot offset of the dependency bound belongs to the slot the walk began in\n            self.slotStartOffset = 0.0\n",
+                                                        "            # The mid-slot offset of the dependency bound belongs to the slot the walk began in\n            self.slotStartOffset = 0.0\n            self.currentSlotIdx += delta\n")]),
+    ("b_sound_memo_of_pure_conversion", ["C02", "C08", "C12", "C16"], [
+        (WH, "class WorkingHours:\n", "_LOCAL_TIMES: dict = {}\n\n\nclass WorkingHours:\n"),
+        (WH, "                utc_dt = dt.replace(tzinfo=dt_timezone.utc)\n                tz = zoneinfo.ZoneInfo(timezone_str)\n                return utc_dt.astimezone(tz)",
+             "                key = (timezone_str, dt)\n                if key not in _LOCAL_TIMES:\n                    utc_dt = dt.replace(tzinfo=dt_timezone.utc)\n                    _LOCAL_TIMES[key] = utc_dt.astimezone(zoneinfo.ZoneInfo(timezone_str))\n                return _LOCAL_TIMES[key]")]),
     ("b_rename_local_available_seconds", ["C01", "C03"], [(RS, "        available_seconds = self.getAvailableSecondsInSlot(sb_idx)\n        efficiency", "        free_secs = self.getAvailableSecondsInSlot(sb_idx)\n        available_seconds = free_secs\n        efficiency")]),
     ("b_book_guard_as_nested_if", ["C01"], [(RS, "        if not force and not self.available(sb_idx):\n            return 0.0", "        if not force:\n            if not self.available(sb_idx):\n                return 0.0")]),
     ("b_min_builtin_in_rollup", ["C10"], [(PJ, "                if child_start and (min_start is None or child_start < min_start):\n                    min_start = child_start", "                if child_start and (min_start is None or min_start > child_start):\n                    min_start = child_start")]),
